@@ -159,7 +159,7 @@ theorem parse_build (h : Fields) (ok : h.OK) : parse (build h) = .ok (expected h
 
 /-! ### every byte string -/
 
-def Cls (e : PyErr) : Prop := e = .mutagen ∨ e = .notImplemented ∨ e = .diverge
+def Cls (e : PyErr) : Prop := e = .mutagen ∨ e = .diverge
 
 theorem leafOf_cls (g d : Bytes) (e : PyErr) (h : leafOf g d = .error e) : Cls e := by
   unfold leafOf at h
@@ -171,7 +171,7 @@ theorem extLoop_cls (data : Bytes) (ds : Nat) (fuel pos : Nat) (e : PyErr) (h : 
   | zero =>
     unfold extLoop at h
     split at h
-    · cases h; exact .inr (.inr rfl)
+    · cases h; exact .inr rfl
     · cases h
   | succ k ih =>
     unfold extLoop at h
@@ -182,7 +182,7 @@ theorem extLoop_cls (data : Bytes) (ds : Nat) (fuel pos : Nat) (e : PyErr) (h : 
       · split at h
         · cases h; exact .inl rfl
         · split at h
-          · cases h; first | exact .inl rfl | exact .inr (.inl rfl)
+          · cases h; exact .inl rfl
           · split at h
             · rename_i e' he; cases h; exact leafOf_cls _ _ _ he
             · split at h
@@ -228,7 +228,7 @@ theorem parseObjects_cls (f : Bytes) (n pos rem : Nat) (e : PyErr) (h : parseObj
                 · rename_i e' he; cases h; exact ih _ _ he
                 · cases h
 
-theorem parseFull_cls (f : Bytes) (e : PyErr) (h : parseFull f = .error e) : e = .mutagen ∨ e = .notImplemented := by
+theorem parseFull_cls (f : Bytes) (e : PyErr) (h : parseFull f = .error e) : e = .mutagen := by
   have hnd := parseFull_no_diverge f
   have : Cls e := by
     unfold parseFull at h
@@ -241,21 +241,15 @@ theorem parseFull_cls (f : Bytes) (e : PyErr) (h : parseFull f = .error e) : e =
       · cases he; exact .inl rfl
       · cases he
     · exact parseObjects_cls _ _ _ _ _ h
-  rcases this with h' | h' | h'
-  · exact .inl h'
-  · exact .inr h'
+  rcases this with h' | h'
+  · exact h'
   · subst h'; exact absurd h hnd
 
 /-- every exception of `ASF(fileobj)` up to the stream information is the format's error -/
 theorem parse_clean (f : Bytes) (e : PyErr) (h : parse f = .error e) : e = .mutagen := by
   unfold parse at h
   split at h
-  · cases h; rfl
-  · rename_i e' hne he
-    cases h
-    rcases parseFull_cls f _ he with h' | h'
-    · exact h'
-    · subst h'; exact absurd rfl (hne)
+  · rename_i e' he; cases h; exact parseFull_cls f _ he
   · cases h
 
 end Mutagen.Info.Asf
